@@ -663,7 +663,7 @@ pub fn dd_pass(ctx: &Ctx) -> Acc {
 // ---------------------------------------------------------------------------------------------------
 
 /// one execution; returns false if not judged
-pub fn check_dd_sample(case: &Case, r: &Routed, x: &[f64], acc: &mut Acc) -> bool {
+pub fn check_dd_sample(prop: &str, case: &Case, r: &Routed, x: &[f64], acc: &mut Acc) -> bool {
     let nl = case.nl;
     let ne = case.g.ne();
     let xs: Vec<DD> = x.iter().map(|v| DD::from(*v)).collect();
@@ -696,8 +696,9 @@ pub fn check_dd_sample(case: &Case, r: &Routed, x: &[f64], acc: &mut Acc) -> boo
     if xq.iter().any(|q| *q <= Q::from_integer(0.into())) {
         return false;
     }
-    let key = |c: &str| vkey("C19", c, case, x);
-    let pc = || point_case(case, &r.kin, x, &Settings::META, json!({"prop": "C19", "dd_sampler": true}));
+    let key = |c: &str| vkey(prop, c, case, x);
+    let pc = || point_case(case, &r.kin, x, &Settings::META, json!({"prop": prop, "dd_sampler": true}));
+    let c19 = prop == "C19";
     // (A) normalisation in the rescaled gauge, at double-double accuracy: U_tr^(D/2) V_tr^dod = 1
     let mut order: Vec<usize> = (0..ne).collect();
     order.sort_by(|a, b| xq[*b].cmp(&xq[*a]));
@@ -716,7 +717,9 @@ pub fn check_dd_sample(case: &Case, r: &Routed, x: &[f64], acc: &mut Acc) -> boo
     let spread = q_to_f64(&(&xq[order[0]] / &xq[order[ne - 1]]));
     let tol_a = 2f64.powi(-80) * kap + 2f64.powi(-100) * spread * (d2 * nl as f64 + dod_impl);
     acc.inc("dd_sampler_judged");
-    if tol_a <= 1e-20 {
+    if !c19 {
+        // other properties use this pass for their own clause only
+    } else if tol_a <= 1e-20 {
         acc.max("dd_sampler_normalisation_units_2^-80", lhs.abs() / tol_a);
         if !(lhs.abs() <= tol_a) {
             acc.violate(
@@ -733,6 +736,59 @@ pub fn check_dd_sample(case: &Case, r: &Routed, x: &[f64], acc: &mut Acc) -> boo
     // (B) u and v against the exact polynomials at the double-double parameters
     let ex_u = u_poly(&case.comb, &xq);
     let ex_f = case.fpoly.eval(&xq);
+    // (C) the Gaussian map of the loop momenta in the caller's scalar type, routing-free form:
+    //     Σ_e x_e (|q_e(k)|² + m_e²) = V (1 + |q|² / 2λ), every quantity taken from the double-double outputs
+    {
+        let kq: Option<Vec<Vec<Q>>> = s.loop_momenta.iter().map(|k| k.iter().map(dd_to_q).collect::<Option<Vec<Q>>>()).collect();
+        let gq: Option<Vec<Vec<Q>>> = m.q_vectors.iter().map(|k| k.iter().map(dd_to_q).collect::<Option<Vec<Q>>>()).collect();
+        if let (Some(kq), Some(gq), Some(vq), Some(lam)) = (kq, gq, dd_to_q(&s.v), dd_to_q(&m.lambda)) {
+            if lam > Q::from_integer(0.into()) && vq > Q::from_integer(0.into()) {
+                let lhs = oracle::symanzik::quadratic_form(&r.kin, &xq, &kq);
+                let mut qsq = Q::from_integer(0.into());
+                for g in gq.iter().flatten() {
+                    qsq += g * g;
+                }
+                let two = Q::from_integer(2.into());
+                let rhs = &vq * (Q::from_integer(1.into()) + &qsq / (&two * &lam));
+                let l = l_matrix(&r.kin.sig, &xq);
+                let kappa_s = l.scaled_cond1().map(|c| q_to_f64(&c)).unwrap_or(f64::INFINITY);
+                // scale: sum of the absolute contributions
+                let d = case.g.dim;
+                let mut scale = Q::from_integer(0.into());
+                for e in 0..ne {
+                    let m2 = r.kin.masses[e].as_ref().map(|m| m * m).unwrap_or_else(|| Q::from_integer(0.into()));
+                    let mut comp = Q::from_integer(0.into());
+                    for c in 0..d {
+                        let mut a = q_abs(&r.kin.shifts[e][c]);
+                        for lp in 0..nl {
+                            a += qi(r.kin.sig[e][lp].abs()) * q_abs(&kq[lp][c]);
+                        }
+                        comp += &a * &a;
+                    }
+                    scale += &xq[e] * (m2 + comp);
+                }
+                let scale = q_to_f64(&scale);
+                let diff = q_to_f64(&(lhs - rhs)).abs();
+                let tol = (2f64.powi(-84) * kappa_s + 2f64.powi(-96) * spread) * scale;
+                if tol <= 1e-22 * scale {
+                    acc.inc("dd_sampler_momentum_identity_judged");
+                    acc.max("dd_sampler_momentum_units", diff / tol);
+                    if !(diff <= tol) {
+                        acc.violate(
+                            key("wide type: loop momenta follow the Gaussian map"),
+                            "k = Q^-T sqrt(V/2λ) q - L^-1 u in the caller's scalar type: Σ x_e(|q_e|²+m_e²) = V(1+|q|²/2λ)",
+                            format!("with a double-double scalar the quadratic form at the returned momenta differs from V(1+|q|^2/2λ) by {diff:e} (allowed {tol:e}, scale {scale:e}); a detour through f64 gives about 1e-16 of the scale"),
+                            pc(),
+                        );
+                        return true;
+                    }
+                }
+            }
+        }
+    }
+    if !c19 {
+        return true;
+    }
     if let (Some(uq), Some(vq)) = (dd_to_q(&s.u), dd_to_q(&s.v)) {
         let l = l_matrix(&r.kin.sig, &xq);
         let cond = l.cond1().map(|c| q_to_f64(&c)).unwrap_or(f64::INFINITY);
@@ -801,7 +857,7 @@ pub fn dd_sampler_pass(ctx: &Ctx) -> Acc {
                 continue;
             }
             for (x, _) in sector_points(&case, order, 1, &roles) {
-                check_dd_sample(&case, &r, &x, acc);
+                check_dd_sample(&ctx.prop, &case, &r, &x, acc);
             }
         }
         // cancellation from the kinematics: a loop-momentum offset 2^30 times larger than the physical momenta makes
@@ -816,7 +872,7 @@ pub fn dd_sampler_pass(ctx: &Ctx) -> Acc {
                 for order in sectors.iter().step_by((sectors.len() / 4).max(1)) {
                     let x = sector_defaults(&case, order);
                     acc.inc("dd_sampler_offset_points");
-                    check_dd_sample(&case, &roff, &x, acc);
+                    check_dd_sample(&ctx.prop, &case, &roff, &x, acc);
                 }
             }
         }
@@ -831,7 +887,7 @@ pub fn dd_sampler_pass(ctx: &Ctx) -> Acc {
             x[1] = libm::pow(10.0, -k * w1);
             if x[1] > 1e-300 {
                 acc.inc("dd_sampler_cancellation_points");
-                check_dd_sample(&case, &r, &x, acc);
+                check_dd_sample(&ctx.prop, &case, &r, &x, acc);
             }
         }
     })
@@ -869,7 +925,7 @@ pub fn replay_point(ctx: &Ctx, v: &Value) -> i32 {
     let st = settings_from_json(&v["settings"]);
     let mut acc = Acc::new();
     if v["extra"]["dd_sampler"].as_bool().unwrap_or(false) {
-        check_dd_sample(&case, &r, &x, &mut acc);
+        check_dd_sample(&ctx.prop, &case, &r, &x, &mut acc);
     }
     let xs = if x.len() > groups(&case).dim { x[..groups(&case).dim].to_vec() } else { x.clone() };
     dataflow_point(&case, &r, &xs, &st, ctx.prop == "C14", ctx.prop == "C19", &mut HashMap::new(), None, &mut acc);
